@@ -372,14 +372,29 @@ def fold_return_temporaries(fn: ast.AST, keep: set) -> None:
                 i += 1
 
 
-def strip_noops(tree: ast.AST) -> None:
+def _is_noop(st: ast.AST) -> bool:
+    """``pass`` and diagnostic logging calls (``LOGGER.debug(...)`` ...): nothing a property of this code base depends on."""
+    if isinstance(st, ast.Pass):
+        return True
+    if isinstance(st, ast.Expr) and isinstance(st.value, ast.Call):
+        name = dotted(st.value.func) or ''
+        return name.startswith('LOGGER.') and name.split('.')[-1] in ('debug', 'info', 'warning', 'error', 'critical', 'exception', 'log')
+    return False
+
+
+def strip_noops(tree: ast.AST) -> bool:
+    changed = False
     for n in ast.walk(tree):
         for field in ('body', 'orelse', 'finalbody'):
             seq = getattr(n, field, None)
-            if isinstance(seq, list) and len(seq) > 1 and any(isinstance(x, ast.Pass) for x in seq):
-                kept = [x for x in seq if not isinstance(x, ast.Pass)]
-                if kept:
+            if isinstance(seq, list) and seq and isinstance(seq[0], ast.stmt) and any(_is_noop(x) for x in seq):
+                kept = [x for x in seq if not _is_noop(x)]
+                if not kept and field == 'body':
+                    kept = [ast.copy_location(ast.Pass(), seq[0])]
+                if kept != seq and not (len(seq) == 1 and isinstance(seq[0], ast.Pass)):
                     setattr(n, field, kept)
+                    changed = True
+    return changed
 
 
 # --------------------------------------------------------------------------------------------------
@@ -410,8 +425,7 @@ class Module:
         nested ones)."""
         pinned = pinned_locals()
         changed = False
-        if any(isinstance(x, ast.Pass) for x in ast.walk(self.tree)):
-            strip_noops(self.tree)
+        if strip_noops(self.tree):
             changed = True
         if canonical_ifs(self.tree):
             changed = True
